@@ -7,6 +7,7 @@ package main
 // records the pool-decision trace (all decisions are stamped under connsMu).
 
 import (
+	"context"
 	"encoding/json"
 	"errors"
 	"flag"
@@ -35,7 +36,28 @@ type TStep struct {
 	A    string `json:"a"`
 	K    int    `json:"k"`
 	Addr string `json:"addr"`
+	Ctx  bool   `json:"ctx"` // Get: the call is made with CallWithContext (a later Expire step ends its context)
 }
+
+// deadlineCtx is a context whose deadline "passes" when the schedule says so.
+type deadlineCtx struct {
+	done chan struct{}
+	once sync.Once
+}
+
+func newDeadlineCtx() *deadlineCtx                 { return &deadlineCtx{done: make(chan struct{})} }
+func (c *deadlineCtx) Deadline() (time.Time, bool) { return time.Time{}, false }
+func (c *deadlineCtx) Done() <-chan struct{}       { return c.done }
+func (c *deadlineCtx) Err() error {
+	select {
+	case <-c.done:
+		return context.DeadlineExceeded
+	default:
+		return nil
+	}
+}
+func (c *deadlineCtx) Value(key interface{}) interface{} { return nil }
+func (c *deadlineCtx) expire()                           { c.once.Do(func() { close(c.done) }) }
 
 type TSchedule struct {
 	Name  string   `json:"name"`
@@ -91,6 +113,7 @@ type tcaller struct {
 	reply   TReply
 	running bool
 	got0    int // arrivals at the got gate before this call started
+	dctx    *deadlineCtx
 }
 
 type TransRun struct {
@@ -289,7 +312,7 @@ func (r *TransRun) countC(ev string, k int) int {
 	return n
 }
 
-func (r *TransRun) startCall(k int, addr string) {
+func (r *TransRun) startCall(k int, addr string, withCtx bool) {
 	c := r.callers[k]
 	if c == nil {
 		c = &tcaller{k: k}
@@ -302,6 +325,10 @@ func (r *TransRun) startCall(k int, addr string) {
 	c.n++
 	c.cur = k*1000 + c.n
 	c.addr = addr
+	c.dctx = nil
+	if withCtx {
+		c.dctx = newDeadlineCtx()
+	}
 	c.running = true
 	c.done = make(chan struct{})
 	c.reply = TReply{}
@@ -316,7 +343,12 @@ func (r *TransRun) startCall(k int, addr string) {
 		g := goid()
 		r.gidK.Store(g, k)
 		close(ready)
-		err := r.t.Call(addr, "T.Do", &TArgs{ID: id}, &c.reply)
+		var err error
+		if c.dctx != nil {
+			err = r.t.CallWithContext(c.dctx, addr, "T.Do", &TArgs{ID: id}, &c.reply)
+		} else {
+			err = r.t.Call(addr, "T.Do", &TArgs{ID: id}, &c.reply)
+		}
 		r.gidK.Delete(g)
 		c.err = err
 		kind := 0
@@ -327,6 +359,8 @@ func (r *TransRun) startCall(k int, addr string) {
 			kind = 1
 		case rpc.ErrDial:
 			kind = 2
+		case context.DeadlineExceeded:
+			kind = 4
 		default:
 			kind = 3
 		}
@@ -407,7 +441,20 @@ func (r *TransRun) exec(st TStep) {
 	unit := time.Duration(r.cfg.UnitMs) * time.Millisecond
 	switch st.A {
 	case "Get":
-		r.startCall(st.K, st.Addr)
+		r.startCall(st.K, st.Addr, st.Ctx)
+	case "Expire":
+		// the context of the caller's call in flight ends: the caller must return at once with the context's error; the
+		// handler is then released so that the abandoned call's late answer is discarded before the next step
+		c := r.callers[st.K]
+		if c == nil || !c.running || c.dctx == nil {
+			return
+		}
+		c.dctx.expire()
+		r.await("return of the caller whose context ended", func() bool { return r.finished(st.K) })
+		if s := r.servers[c.addr]; s != nil && s.svc.gate != nil {
+			s.svc.gate.release(key(c.cur), 0)
+		}
+		time.Sleep(2 * time.Millisecond)
 	case "Register":
 		if r.gotGate != nil {
 			c := r.callers[st.K]
